@@ -130,8 +130,9 @@ void visit_call(Visit *self, vec3i *c)
 {
   __CPROVER_assert(g_hi.x > g_lo.x && g_hi.y > g_lo.y && g_hi.z > g_lo.z, "VISIT the functor is only called for a non-empty region");
   __CPROVER_assert(g_next.z < g_hi.z, "VISIT no coordinate is visited after the last one of the region");
+  __CPROVER_assert(c->x >= g_lo.x && c->x < g_hi.x && c->y >= g_lo.y && c->y < g_hi.y && c->z >= g_lo.z && c->z < g_hi.z, "VISIT nothing outside the region is visited");
   __CPROVER_assert(c->x == g_next.x && c->y == g_next.y && c->z == g_next.z, "VISIT coordinates arrive in flattened order, each exactly once");
-  g_k++;
+  if (g_k < 1000000l) g_k++;
   g_next.x++;
   if (g_next.x >= g_hi.x) { g_next.x = g_lo.x; g_next.y++; if (g_next.y >= g_hi.y) { g_next.y = g_lo.y; g_next.z++; } }
 }
@@ -151,11 +152,33 @@ def foreach_unit():
     GEQ = "g_lo.x == %s.x && g_lo.y == %s.y && g_lo.z == %s.z && g_hi.x == %s.x && g_hi.y == %s.y && g_hi.z == %s.z"
     acc = dict(unwind=EXT + 2, timeout=600, assigns=["g_k", "g_next", "__verif_exc"], solver=["--sat-solver", "cadical"])
     ENS = {"every_coordinate_of_the_region_is_visited_exactly_once_in_flattened_order": "__verif_exc == 0 && g_k == %s" % CNT}
-    F.fn("fe_range", pre_call="  g_k = 0; g_lo = o_@0; g_hi = o_@1; g_next = g_lo;\n", requires=["g_k == 0", "g_next.x == g_lo.x && g_next.y == g_lo.y && g_next.z == g_lo.z", "__verif_exc == 0", small("(*$0)"), small("(*$1)"), ext("(*$0)", "(*$1)"), GEQ % (("(*$0)",) * 3 + ("(*$1)",) * 3)], ensures=ENS, **acc)
-    F.fn("fe_size", pre_call="  g_k = 0; g_lo.x = 0; g_lo.y = 0; g_lo.z = 0; g_hi = o_@0; g_next = g_lo;\n", requires=["g_k == 0", "g_next.x == g_lo.x && g_next.y == g_lo.y && g_next.z == g_lo.z", "__verif_exc == 0", small("(*$0)"), "g_lo.x == 0 && g_lo.y == 0 && g_lo.z == 0 && g_hi.x == $0->x && g_hi.y == $0->y && g_hi.z == $0->z"],
-         inline=["fe_range"], ensures=ENS, **acc)
-    F.fn("fe_box", pre_call="  g_k = 0; g_lo = o_@0.lower; g_hi = o_@0.upper; g_next = g_lo;\n", requires=["g_k == 0", "g_next.x == g_lo.x && g_next.y == g_lo.y && g_next.z == g_lo.z", "__verif_exc == 0", small("$0->lower"), small("$0->upper"), ext("$0->lower", "$0->upper"), GEQ % (("$0->lower",) * 3 + ("$0->upper",) * 3)],
-         inline=["fe_range"], ensures=ENS, **acc)
+    # unbounded: the probe accepts a visit only when it is the expected next coordinate in flattened order (starting at the lower corner),
+    # so "every coordinate exactly once, in order, nothing else" is: no probe assertion fails and the expected-next coordinate ends at
+    # (lo.x, lo.y, hi.z) -- one past the last cell; an empty region is never visited. No product of extents is needed.
+    NEr = "(g_hi.x > g_lo.x && g_hi.y > g_lo.y && g_hi.z > g_lo.z)"
+    NXT = lambda x, y, z: "(g_next.x == %s && g_next.y == %s && g_next.z == %s)" % (x, y, z)
+    ENSU = {"every_coordinate_of_the_region_is_visited_exactly_once_in_flattened_order":
+            "__verif_exc == 0 && IMP(%s, %s) && IMP(!%s, g_k == 0)" % (NEr, NXT("g_lo.x", "g_lo.y", "g_hi.z"), NEr)}
+    LA = ["g_k", "g_next", "__verif_exc"]
+    LOOPS = {
+        1: dict(assigns=["iz"] + LA, invariant=["__verif_exc == 0", "iz >= g_lo.z", "IMP(!%s, g_k == 0)" % NEr, "IMP(%s, iz <= g_hi.z && %s)" % (NEr, NXT("g_lo.x", "g_lo.y", "iz"))],
+                decreases="(long)g_hi.z - (long)iz"),
+        2: dict(assigns=["iy"] + LA, invariant=["__verif_exc == 0", "iy >= g_lo.y", "IMP(!%s, g_k == 0)" % NEr,
+                                                "IMP(%s, iy <= g_hi.y && IMP(iy < g_hi.y, %s) && IMP(iy == g_hi.y, %s))" % (NEr, NXT("g_lo.x", "iy", "iz"), NXT("g_lo.x", "g_lo.y", "iz + 1"))],
+                decreases="(long)g_hi.y - (long)iy"),
+        3: dict(assigns=["ix", "__t1"] + LA, invariant=["__verif_exc == 0", "ix >= g_lo.x", "IMP(!%s, g_k == 0)" % NEr,
+                                                        "IMP(%s, ix <= g_hi.x && IMP(ix < g_hi.x, %s) && IMP(ix == g_hi.x && iy + 1 < g_hi.y, %s) && IMP(ix == g_hi.x && iy + 1 >= g_hi.y, %s))"
+                                                        % (NEr, NXT("ix", "iy", "iz"), NXT("g_lo.x", "iy + 1", "iz"), NXT("g_lo.x", "g_lo.y", "iz + 1"))],
+                decreases="(long)g_hi.x - (long)ix")}
+    START = ["g_k == 0", "g_next.x == g_lo.x && g_next.y == g_lo.y && g_next.z == g_lo.z", "__verif_exc == 0"]
+    accu = dict(timeout=600, assigns=["g_k", "g_next", "__verif_exc"], solver=["--sat-solver", "cadical"])
+    F.fn("fe_range", pre_call="  g_k = 0; g_lo = o_@0; g_hi = o_@1; g_next = g_lo;\n", requires=START + [GEQ % (("(*$0)",) * 3 + ("(*$1)",) * 3)], ensures=ENSU, loops=LOOPS, **accu)
+    F.fn("fe_size", pre_call="  g_k = 0; g_lo.x = 0; g_lo.y = 0; g_lo.z = 0; g_hi = o_@0; g_next = g_lo;\n", requires=START + ["g_lo.x == 0 && g_lo.y == 0 && g_lo.z == 0 && g_hi.x == $0->x && g_hi.y == $0->y && g_hi.z == $0->z"],
+         inline=["fe_range"], ensures=ENSU, **accu)
+    F.fn("fe_box", pre_call="  g_k = 0; g_lo = o_@0.lower; g_hi = o_@0.upper; g_next = g_lo;\n", requires=START + [GEQ % (("$0->lower",) * 3 + ("$0->upper",) * 3)],
+         inline=["fe_range"], ensures=ENSU, **accu)
+    # bounded stand-in kept next to the proof: the visit COUNT equals the product of the extents (regions of at most 3 cells per axis)
+    F.fn("fe_range", variant="small_regions", pre_call="  g_k = 0; g_lo = o_@0; g_hi = o_@1; g_next = g_lo;\n", requires=START + [small("(*$0)"), small("(*$1)"), ext("(*$0)", "(*$1)"), GEQ % (("(*$0)",) * 3 + ("(*$1)",) * 3)], ensures=ENS, **acc)
     return F
 
 
@@ -180,7 +203,7 @@ vec3i a3f_size_stub(Array3Df *self) { return g_dims; }
 
 
 def range_unit():
-    """Array3D::getValueRange(begin, end) / getValueRange(): bounds every value of the region, tightly -- BOUNDED (extents of at most 2 per axis)"""
+    """Array3D::getValueRange(begin, end) / getValueRange(): bounds every value of the region, tightly -- loop contracts, every non-empty region"""
     R = Unit("c17_range", "units/c17_range.cpp", stubs=RSTUBS, opts=dict(stub_bodies=["a3f_get_stub", "a3f_size_stub"],
              virtual_models={"rkcommon::array3D::Array3D<float>::get": "a3f_get_stub", "rkcommon::array3D::Array3D<float>::size": "a3f_size_stub"}))
     R.stub("Array3D<float>::get / size", "interface stubs: get asserts the request lies in the region, hands back an arbitrary non-NaN value (a fixed one at the ghost coordinate) and keeps the running min/max in ghost state")
@@ -193,12 +216,25 @@ def range_unit():
     acc = dict(unwind=EXT + 2, timeout=420, assigns=["g_min", "g_max", "g_calls", "g_gseen", "__verif_exc"], solver=["--sat-solver", "cadical"])
     NE = "g_hi.x > g_lo.x && g_hi.y > g_lo.y && g_hi.z > g_lo.z && g_hi.x <= g_lo.x + %d && g_hi.y <= g_lo.y + %d && g_hi.z <= g_lo.z + %d" % (EXT, EXT, EXT)
     SM = "g_lo.x >= -3 && g_lo.x <= 3 && g_lo.y >= -3 && g_lo.y <= 3 && g_lo.z >= -3 && g_lo.z <= 3"
+    FE = "for_each__vec3i_vec3i_vr_range__lambda1"
+    V = "functor->__cap0"
+    common = ["g_calls >= 1", "__verif_exc == 0", "%s->lower == g_min && %s->upper == g_max" % (V, V), "IMP(g_gseen != 0, g_min <= g_gv && g_gv <= g_max)"]
+    LA = ["%s->lower" % V, "%s->upper" % V, "g_min", "g_max", "g_calls", "g_gseen", "__verif_exc"]
+    BZ = "g_gc.z < iz"
+    BY = "(g_gc.z < iz || (g_gc.z == iz && g_gc.y < iy))"
+    BX = "(g_gc.z < iz || (g_gc.z == iz && (g_gc.y < iy || (g_gc.y == iy && g_gc.x < ix))))"
+    R.fn(FE, assumed=True, requires=["1"], ensures={"not_used_as_a_contract_the_body_is_always_inlined": "1"}, loops={
+        1: dict(assigns=["iz"] + LA, invariant=["iz >= lower->z && iz <= upper->z"] + common + ["IMP(%s && %s, g_gseen != 0)" % (INR, BZ)], decreases="(long)upper->z - (long)iz"),
+        2: dict(assigns=["iy"] + LA, invariant=["iy >= lower->y && iy <= upper->y"] + common + ["IMP(%s && %s, g_gseen != 0)" % (INR, BY)], decreases="(long)upper->y - (long)iy"),
+        3: dict(assigns=["ix", "__t1"] + LA, invariant=["ix >= lower->x && ix <= upper->x"] + common + ["IMP(%s && %s, g_gseen != 0)" % (INR, BX)], decreases="(long)upper->x - (long)ix")})
+    NEU = "g_hi.x > g_lo.x && g_hi.y > g_lo.y && g_hi.z > g_lo.z"
+    acc2 = dict(acc); acc2.pop("unwind")
     R.fn("vr_range", pre_call=pre + "  g_lo = o_@1; g_hi = o_@2;\n",
-         requires=["g_calls == 0 && g_gseen == 0 && __verif_exc == 0 && g_gv == g_gv", SM, NE,
-                   "g_lo.x == $1->x && g_lo.y == $1->y && g_lo.z == $1->z && g_hi.x == $2->x && g_hi.y == $2->y && g_hi.z == $2->z"], ensures=ENS, **acc)
+         requires=["g_calls == 0 && g_gseen == 0 && __verif_exc == 0 && g_gv == g_gv", NEU,
+                   "g_lo.x == $1->x && g_lo.y == $1->y && g_lo.z == $1->z && g_hi.x == $2->x && g_hi.y == $2->y && g_hi.z == $2->z"], inline=[FE], ensures=ENS, **acc2)
     R.fn("vr_all", pre_call=pre + "  g_lo.x = 0; g_lo.y = 0; g_lo.z = 0; g_dims.x = nondet_int(); g_dims.y = nondet_int(); g_dims.z = nondet_int(); g_hi = g_dims;\n",
-         requires=["g_calls == 0 && g_gseen == 0 && __verif_exc == 0 && g_gv == g_gv", SM, "g_lo.x == 0 && g_lo.y == 0 && g_lo.z == 0 && g_hi.x == g_dims.x && g_hi.y == g_dims.y && g_hi.z == g_dims.z", NE],
-         inline=["vr_range"], ensures=ENS, **acc)
+         requires=["g_calls == 0 && g_gseen == 0 && __verif_exc == 0 && g_gv == g_gv", "g_lo.x == 0 && g_lo.y == 0 && g_lo.z == 0 && g_hi.x == g_dims.x && g_hi.y == g_dims.y && g_hi.z == g_dims.z", NEU],
+         inline=["vr_range", FE], ensures=ENS, **acc2)
     return R
 
 
@@ -245,12 +281,12 @@ def adaptors_unit():
 
 
 META = dict(
-    technique='z3 integer-mode VCs with machine-range obligations on the extracted index maps + CBMC 6.11 function contracts (iterators, adaptors against a recording stub); bounded unwinding for get/set cells, for_each and getValueRange',
+    technique='z3 integer-mode VCs with machine-range obligations on the extracted index maps + CBMC 6.11 function contracts (iterators, adaptors against a recording stub); getValueRange by function + loop contracts for all regions; for_each by loop contracts for all regions; bounded unwinding for ActualArray3D get/set cells',
     level="proof",
-    level_text="flatten/reshape (2-D, 3-D) and longIndex/coordsOf are proved mutually inverse on coordinates inside the extent and on [0,total), flatten < total, for EVERY extent (unbounded, z3 over the integers on VCs generated from the extracted code), together with the obligation that every intermediate value and every conversion fits its machine type (so machine arithmetic equals mathematical arithmetic: 'computed in 64 bits without overflow' is itself proved, and e.g. a 32-bit temporary for a row number is refuted). Iterator operations (++, ==, jump_to, current, begin, dimensions) have bit-precise CBMC contracts. The shifted, sub-box, accessor and multi-slice adaptors (unit c17_adaptors) are proved, against a recording interface stub of the underlying Array3D, to ask exactly one underlying array for exactly the cell their definition names (shift wrapped into the extent; offset by the box origin; same cell with value conversion; cell (x,y,0) of the slice selected by the clamped z) and to return its value. array3D::for_each (range, size and box forms; unit c17_foreach) is checked, BOUNDED to extents of at most 3 per axis, against a probe functor: every coordinate of the region is visited exactly once, in flattened order (x fastest), and nothing outside it.",
-    level_note="Trusted: clang AST, cxx2c, mathvc evaluator, z3; CBMC for the iterator contracts. ActualArray3D::get/set are checked BOUNDED (extents of at most 4 per axis): get reads the cell at the clamped coordinate, set writes exactly the cell of its coordinate and no other (so get returns the value last set there). Array3D::getValueRange(begin,end) and getValueRange() (unit c17_range) are checked BOUNDED (non-empty regions of at most 2 cells per axis) against a recording get/size stub: only cells of the region are read, every cell of it is read, the result bounds every value read and its two ends are the minimum and maximum of the values read (tight); an EMPTY region is outside that contract (the code then returns [get(begin), get(begin)]). NOT under contract: Array3DRepeater, numElements of the adaptors.",
+    level_text="flatten/reshape (2-D, 3-D) and longIndex/coordsOf are proved mutually inverse on coordinates inside the extent and on [0,total), flatten < total, for EVERY extent (unbounded, z3 over the integers on VCs generated from the extracted code), together with the obligation that every intermediate value and every conversion fits its machine type (so machine arithmetic equals mathematical arithmetic: 'computed in 64 bits without overflow' is itself proved, and e.g. a 32-bit temporary for a row number is refuted). Iterator operations (++, ==, jump_to, current, begin, dimensions) have bit-precise CBMC contracts. The shifted, sub-box, accessor and multi-slice adaptors (unit c17_adaptors) are proved, against a recording interface stub of the underlying Array3D, to ask exactly one underlying array for exactly the cell their definition names (shift wrapped into the extent; offset by the box origin; same cell with value conversion; cell (x,y,0) of the slice selected by the clamped z) and to return its value. array3D::for_each (range, size and box forms; unit c17_foreach) is PROVED for every region (any int corners, empty regions included) with loop contracts on its three loops, against a probe functor that accepts a visit only if it lies in the region and is the expected next coordinate in flattened order (x fastest): no probe assertion fails and the expected-next coordinate ends one past the last cell, i.e. every coordinate of the region is visited exactly once, in order, and nothing outside it; the count of visits == product of the extents is additionally checked BOUNDED (fe_range#small_regions, at most 3 cells per axis). Array3D::getValueRange is proved for every non-empty region the same way (unit c17_range).",
+    level_note="Trusted: clang AST, cxx2c, mathvc evaluator, z3; CBMC for the iterator contracts. ActualArray3D::get/set are checked BOUNDED (extents of at most 4 per axis): get reads the cell at the clamped coordinate, set writes exactly the cell of its coordinate and no other (so get returns the value last set there). Array3D::getValueRange(begin,end) and getValueRange() (unit c17_range) are PROVED for every non-empty region (no bound on the extents; loop contracts on the three loops of the for_each instantiation they run, keyed by loop ordinal; the loop-3 frame names the extractor's hoisted coordinate temporary __t1) against a recording get/size stub: only cells of the region are read, every cell of it is read (ghost coordinate, lexicographic progress invariant), the result bounds every value read and its two ends are the minimum and maximum of the values read (tight); an EMPTY region is outside that contract (the code then returns [get(begin), get(begin)]). NOT under contract: Array3DRepeater, numElements of the adaptors.",
     assumptions=["extent with total < 2^64 (multidim_index_sequence), positive int extents (array3D)"],
-    bounded=["ActualArray3D get/set: extents of at most 4 per axis", "for_each (unit c17_foreach): region extents of at most 3 per axis, coordinates in [-3,3], unwind 5", "getValueRange (unit c17_range): non-empty regions of at most 2 cells per axis, lower corner in [-3,3], unwind 4 (3 cells per axis did not finish in 900 s)"],
-    unverified=["Array3DRepeater (mirrored repetition; not named by the property)", "adaptor numElements", "getValueRange on regions larger than 2x2x2 and on empty regions"],
+    bounded=["ActualArray3D get/set: extents of at most 4 per axis", "for_each visit COUNT (fe_range#small_regions): region extents of at most 3 per axis, coordinates in [-3,3], unwind 5 -- the order/coverage proof itself (fe_range, fe_size, fe_box) is unbounded"],
+    unverified=["Array3DRepeater (mirrored repetition; not named by the property)", "adaptor numElements", "getValueRange on empty regions (returns the value of a cell outside the region; tightness is vacuous there)"],
     trusted_extra=["lib/mathvc.py symbolic evaluator", "z3 5.1.0"],
 )
